@@ -72,6 +72,19 @@ func (P *Prog) runInit(pkg *ssa.Package) *initInfo {
 	for _, c := range ex.cands {
 		ii.pc = And(ii.pc, Not(c.Enable))
 	}
+	// when the initialiser is straight-line its path condition is a conjunction of assumptions about
+	// fresh values: split it, so that a function only drags in what concerns the globals it uses
+	if ii.pc.op == "and" {
+		ii.conj = ii.pc.args
+	} else {
+		ii.conj = []*Term{ii.pc}
+	}
+	ii.straight = true
+	for _, c := range ii.conj {
+		if c.op == "or" {
+			ii.straight = false
+		}
+	}
 	// content of init-allocated objects
 	for name, t := range ii.final.comp {
 		if strings.HasPrefix(name, "glob$") {
@@ -82,7 +95,15 @@ func (P *Prog) runInit(pkg *ssa.Package) *initInfo {
 			idx := base.args[1]
 			if idx.op == "var" && (strings.HasPrefix(idx.name, "obj$") || strings.HasSuffix(idx.name, "$obj")) {
 				h0 := P.initialVar(name)
-				idx.AddFact(Implies(ii.pc, Eq(Select(h0, idx), Select(t, idx))))
+				if ii.straight {
+					idx.AddFact(Eq(Select(h0, idx), Select(t, idx)))
+				} else {
+					// attached lazily (constGlobalVal) to the objects a used global refers to
+					if ii.content == nil {
+						ii.content = map[int][]*Term{}
+					}
+					ii.content[idx.id] = append(ii.content[idx.id], Implies(ii.pc, Eq(Select(h0, idx), Select(t, idx))))
+				}
 				P.immutable[name] = append(P.immutable[name], idx)
 			}
 			base = base.args[0]
@@ -118,7 +139,10 @@ func (ex *Exec) constGlobalVal(gname string, t types.Type) Val {
 		}
 		ts[i] = v
 		if !v.isLit() && v != True && v != False && v != Null {
-			v.AddFact(ii.pc)
+			v.AddFact(ii.relevant(v))
+			for _, f := range ii.content[v.id] {
+				v.AddFact(f)
+			}
 		}
 	}
 	ex.assumes["package-level variable "+strings.TrimPrefix(gname, "glob$")+" is never reassigned and the objects it refers to are immutable"] = true
@@ -428,4 +452,57 @@ func hasStr(xs []string, x string) bool {
 		}
 	}
 	return false
+}
+
+// relevant: the conjuncts of a straight-line initialiser's path condition that concern v: those
+// that mention one of v's variables, plus every conjunct over scalars only (allocation clocks,
+// births, type tags), which orders the objects of the package among themselves.
+func (ii *initInfo) relevant(v *Term) *Term {
+	seed := map[int]bool{}
+	var collect func(t *Term, into map[int]bool, seen map[int]bool)
+	collect = func(t *Term, into map[int]bool, seen map[int]bool) {
+		if seen[t.id] {
+			return
+		}
+		seen[t.id] = true
+		if t.op == "var" {
+			into[t.id] = true
+		}
+		for _, a := range t.args {
+			collect(a, into, seen)
+		}
+	}
+	collect(v, seed, map[int]bool{})
+	var out []*Term
+	for _, c := range ii.conj {
+		vars := map[int]bool{}
+		collect(c, vars, map[int]bool{})
+		hit, arrays := false, false
+		for id := range vars {
+			if seed[id] {
+				hit = true
+			}
+		}
+		var hasArr func(t *Term, seen map[int]bool) bool
+		hasArr = func(t *Term, seen map[int]bool) bool {
+			if seen[t.id] {
+				return false
+			}
+			seen[t.id] = true
+			if strings.HasPrefix(t.sort, "(Array") || t.op == "forall" || t.op == "exists" {
+				return true
+			}
+			for _, a := range t.args {
+				if hasArr(a, seen) {
+					return true
+				}
+			}
+			return false
+		}
+		arrays = hasArr(c, map[int]bool{})
+		if hit || !arrays {
+			out = append(out, c)
+		}
+	}
+	return And(out...)
 }
